@@ -77,7 +77,7 @@ func propDefs() map[string]*PropDef {
 		Floor: 150,
 		Assumptions: []string{
 			"SCOPE: clauses of C02 that one traversal step decides. For the stack-based traversals behind All and Backward (all$1, backward$1): whenever an inner node is expanded the stack grows by exactly the node's number of children - the loop over a node4/node16 covers every occupied slot, the loop over a node48 every byte with a slot index, the loop over a node256 every non-nil slot (every_child_pushed: exit obligation of each inner loop over a ghost copy of the stack height; the counting functions are the ones whose lemmas are proved by induction under C10); every popped leaf is delivered through restoreKey exactly when it is popped; the traversal faults nowhere, writes nothing, and stops calling yield once it returned false. A loop bound that skips a slot or a byte (the usual off-by-one: 255 instead of 256 with a byte-typed variable) fails every_child_pushed",
-			"order, for node4 and node16: the j-th element pushed is the child in slot childrenLen-1-j (all$1) resp. slot j (backward$1) - with the strictly ascending key bytes of the class invariants (C10) the pops are ascending resp. descending by byte. For node48 and node256 the per-position statement (position = number of occupied bytes beyond) was not written; their loops run over the bytes in the matching direction",
+			"order: for node4 and node16 the j-th element pushed is the child in slot childrenLen-1-j (all$1) resp. slot j (backward$1); for node48 and node256 the child registered under byte x sits at stack position q0 + (number of occupied bytes above x) (all$1) resp. q0 + (number of occupied bytes below x) (backward$1) - proved for an arbitrary byte x (probe-forall). With the strictly ascending key bytes of the class invariants (C10) and the proved monotonicity of the counting functions, the children of a node are popped in ascending resp. descending byte order",
 			"NOT decided: the global statement (complete, duplicate-free, sorted over the whole tree), which needs the ordering part of the tree invariant (rung 2) and a sequence-valued ghost result",
 		},
 		DesignRef: "DESIGN.md section 5 C02, section 12",
